@@ -446,7 +446,10 @@ def check(ck):
                           "can no longer be decoded, so the entry stops being served / listings raise" % A.short(g.test, 60), fx.where(r_))
     da = FA(ck, "serialization.MementoCodec.decode_arg")
     rz = [r_ for r_ in da.stmts(ast.Raise) if isinstance(r_.exc, ast.Call) and A.call_attr(r_.exc) == "FunctionNotFoundError"]
-    okd = len(rz) == 1 and da.enclosing(rz[0], ast.If) is not None and A.norm(da.enclosing(rz[0], ast.If).test) == "fn_reference.memento_fn is None"
+    okd = len(rz) == 1 and da.enclosing(rz[0], ast.If) is not None
+    if okd:
+        xt_ = da.xnorm(da.enclosing(rz[0], ast.If).test)
+        okd = xt_.startswith("cls.decode_fn_reference(") and xt_.endswith(").memento_fn is None")
     ck.ob(R3, da.key(None, "function-argument-decoding"), okd, "a function-valued argument is refused only when no function object (not even a stub) exists" if okd else
           "decode_arg refuses function references under another condition than `memento_fn is None`", da.where())
     # (c) metadata source treats unresolvable functions as absent; memory backend likewise
